@@ -10,7 +10,7 @@ REQUIRED = ["CifModel.C08_firstChar_link", "CifModel.C08_fold_prefix", "CifModel
             "CifModel.C08_bufscan_refines_lexer", "CifModel.C08_bufscan_refines_lexer_tree",
             "CifModel.C08_bufscan_boundaries_irrelevant", "CifModel.C08_bufscan_style_independent", "CifModel.C08_bufscan_refill",
             "CifModel.C08_bufscan_offsets_ordered", "CifModel.C08_bufscan_trim_token", "CifModel.C08_bufscan_push_colon",
-            "CifModel.C08_bufscan_pushback_streams"]
+            "CifModel.C08_bufscan_pushback_streams", "CifModel.C08_bufscan_terminator_fits"]
 GEN = ["ParseConsts"]
 FAMILIES = ["fills", "align", "bufscan"]
 TRUSTED_BASE = [
@@ -50,8 +50,8 @@ PARTIAL = [
     "the colon push-back are modelled at buffer level, proved equal to group gJ's Parser.trimTok / Parser.pushColon "
     "(C08_bufscan_trim_token, C08_bufscan_push_colon, C08_bufscan_pushback_streams: token streams in which pushed-back units are "
     "scanned again) and tied by the ops mode of family bufscan; but the productions themselves are not re-stated over the buffer, so "
-    "a token pointer kept by a production across a next_token call, REJECT_TOKEN, the NUL terminator written behind the current "
-    "token and restored (`*(token_value + token_length) = 0`), the BOM / magic-code prologue of cif_parse_internal (scan_to_ws followed "
+    "a token pointer kept by a production across a next_token call, the write and restore of the NUL terminator behind a BLOCK_HEAD / "
+    "FRAME_HEAD token (only its being inside the buffer array is proved: C08_bufscan_terminator_fits), the BOM / magic-code prologue of cif_parse_internal (scan_to_ws followed "
     "by `next_char = text_start`), the text handed to the whitespace callback and decode_text's own terminator handling remain "
     "correspondence-only (fills P, align, parsedoc)",
     "C08_ws_lengthening requires the two separators to end in the same column (lengthening blanks in front of a token on the "
@@ -70,7 +70,8 @@ LEVEL_TEXT = ("Proof for terminator folding and chunking: Lean theorems over ALL
               "and reports of the list-level lexer model on normalizeEOL(input) (C08_bufscan_refines_lexer, by one simulation lemma "
               "per scan function over the loop iterations; corollaries C08_bufscan_boundaries_irrelevant, "
               "C08_bufscan_style_independent; C08_bufscan_offsets_ordered: at every token text_start <= tvalue_start, "
-              "tvalue_start + tvalue_length <= next_char <= buffer_limit <= buffer_size); replacing a separator by "
+              "tvalue_start + tvalue_length <= next_char <= buffer_limit <= buffer_size; C08_bufscan_terminator_fits: the unit behind a "
+              "BLOCK_HEAD / FRAME_HEAD value, where the parser writes its string terminator, is inside the buffer array); replacing a separator by "
               "any other whitespace/comment run leaves the whole following token stream unchanged up to the line shift "
               "(C08_ws_lengthening, on gD's C01_lex_sep plus the line-shift invariance of the lexer model proved here).")
 LEVEL_NOTE = ("Partial in the respects named in PARTIAL (byte-buffer refills / ICU observed only; of the productions' own buffer "
